@@ -28,7 +28,7 @@ QUICK_SPACES = ('rn3', 'ud3', 'rn3w2', 'rn3wa', 'ud3b', 'pw_rn2_2', 'pw_ud2_2', 
 DER_BASES = ['L1Norm', 'L2NormSquared', 'L2Norm', 'KullbackLeibler', 'Huber',
              'KullbackLeiblerCrossEntropy', 'GroupL1Norm', 'KullbackLeiblerConvexConj',
              'KullbackLeiblerCrossEntropyConvexConj', 'ConstantFunctional', 'LpNorm']
-DER_KINDS = ['translated', 'leftscal', 'rightscal', 'rightscal_neg', 'quadpert_a0', 'scalarsum',
+DER_KINDS = ['translated', 'leftscal', 'leftscal_half', 'rightscal', 'rightscal_neg', 'quadpert_a0', 'scalarsum',
              'rightvec', 'quadpert', 'quadpert_nou', 'bregman', 'rightscal0']
 OPS = ['matrix', 'scaling', 'multiply', 'square', 'sin', 'exp', 'affine']
 
@@ -55,7 +55,9 @@ def configs(tier):
           ('leftscal', 'quadpert'), ('translated', 'translated'), ('rightscal', 'rightscal'),
           ('leftscal', 'leftscal'), ('rightvec', 'leftscal'), ('leftscal', 'rightvec'),
           ('rightvec', 'translated'), ('translated', 'rightvec'), ('bregman', 'rightscal'),
-          ('rightscal', 'quadpert'), ('quadpert', 'rightscal')]
+          ('rightscal', 'quadpert'), ('quadpert', 'rightscal'), ('leftscal_half', 'leftscal'),
+          ('leftscal', 'leftscal_half'), ('leftscal_half', 'leftscal_half'),
+          ('leftscal_half', 'rightscal'), ('rightscal', 'leftscal_half')]
     if thorough:
         d2 = [(a, b) for a in DER_KINDS for b in DER_KINDS]
     for a, b in d2:
